@@ -17,27 +17,25 @@ import (
 
 // ---------------------------------------------------------------- per-case state
 
-type exitSentinel struct{ code int }
-type hangSentinel struct{}
-
 var (
 	resetFns   []func()
 	resetNames []string
 
 	// per case
-	Ticks      int64
-	TickBudget int64 = 2_000_000
-	HangFlag   bool
-	HangSite   string
-	hangPrefix []string
-	ExitCode   = -1 // -1: returned normally
-	Finished   bool
-	CrashValue string
-	CrashSite  string
-	CrashStack string
-	watchdog   chan struct{}
-	goDone     chan struct{}
-	goStarted  int
+	Ticks         int64
+	TickBudget    int64 = 2_000_000
+	HangFlag      bool
+	HangSite      string
+	hangPrefix    []string
+	ExitCode      = -1 // -1: returned normally
+	exitRequested bool
+	Finished      bool
+	CrashValue    string
+	CrashSite     string
+	CrashStack    string
+	watchdog      chan struct{}
+	goDone        chan struct{}
+	goStarted     int
 
 	// map-order policy
 	orderMode  string // sorted | reversed | rot | dev | native
@@ -79,6 +77,7 @@ func BeginCase(order string, budget int64) {
 	HangSite = ""
 	hangPrefix = nil
 	ExitCode = -1
+	exitRequested = false
 	Finished = false
 	CrashValue, CrashSite, CrashStack = "", "", ""
 	watchdog = make(chan struct{}, 4)
@@ -116,14 +115,14 @@ func setOrder(order string) {
 
 // ---------------------------------------------------------------- exit / goroutine / watchdog
 
-// Exit replaces os.Exit: it records the status and unwinds the calling goroutine.
+// Exit replaces os.Exit: it records the status and ends the calling goroutine with
+// runtime.Goexit (deferred functions run; a recover() inside ti cannot swallow it).
 func Exit(code int) {
-	if Finished {
-		// the main goroutine woke up on the (signalled) watchdog channel after the analysis
-		// goroutine already finished through Exit/panic; nothing to record.
-		panic(exitSentinel{-2})
+	if !Finished && !exitRequested {
+		ExitCode = code
+		exitRequested = true
 	}
-	panic(exitSentinel{code})
+	runtime.Goexit()
 }
 
 // Watchdog replaces time.After(500ms): it never fires by time. It is signalled when the analysis
@@ -133,23 +132,17 @@ func Watchdog() <-chan struct{} { return watchdog }
 // GoDone is deferred as the first statement of every goroutine literal started from main.
 func GoDone() {
 	r := recover()
+	abnormal := r != nil || exitRequested || HangFlag
 	if !Finished {
 		if r != nil {
-			switch v := r.(type) {
-			case exitSentinel:
-				ExitCode = v.code
-			case hangSentinel:
-				// HangFlag already set
-			default:
-				recordCrash(r)
-			}
+			recordCrash(r)
 		}
 		if OnFinish != nil {
 			OnFinish()
 		}
 		Finished = true
 	}
-	if r != nil {
+	if abnormal {
 		watchdog <- struct{}{}
 	}
 	goDone <- struct{}{}
@@ -157,35 +150,29 @@ func GoDone() {
 
 func GoStart() { goStarted++ }
 
-// RunMain runs f (the renamed main) on the calling goroutine and waits for the analysis goroutine.
+// RunMain runs f (the renamed main) on a fresh goroutine and waits for it and for the analysis
+// goroutine it starts.
 func RunMain(f func()) {
-	func() {
+	done := make(chan struct{})
+	go func() {
 		defer func() {
 			r := recover()
-			if r == nil {
-				return
+			if !Finished && (r != nil || goStarted == 0) {
+				if r != nil {
+					recordCrash(r)
+				}
+				if OnFinish != nil {
+					OnFinish()
+				}
+				Finished = true
 			}
-			if Finished {
-				return // sentinel from the post-finish Exit(1) after "timeout"; ignored
-			}
-			switch v := r.(type) {
-			case exitSentinel:
-				ExitCode = v.code
-			case hangSentinel:
-			default:
-				recordCrash(r)
-			}
-			if OnFinish != nil {
-				OnFinish()
-			}
-			Finished = true
+			close(done)
 		}()
 		f()
 	}()
-	if goStarted > 0 {
-		for i := 0; i < goStarted; i++ {
-			<-goDone
-		}
+	<-done
+	for i := 0; i < goStarted; i++ {
+		<-goDone
 	}
 	if !Finished {
 		if OnFinish != nil {
@@ -257,8 +244,10 @@ func Tick() {
 		}
 		return
 	}
-	HangSite = attribute(hangPrefix)
-	panic(hangSentinel{})
+	if HangSite == "" {
+		HangSite = attribute(hangPrefix)
+	}
+	runtime.Goexit()
 }
 
 func attribute(prefix []string) string {
